@@ -13,6 +13,7 @@ import (
 	"time"
 
 	"tunnox-core/internal/client/mapping"
+	"tunnox-core/internal/client/tunnel"
 	"tunnox-core/internal/cloud/models"
 	"tunnox-core/internal/cloud/repos"
 	"tunnox-core/internal/cloud/services"
@@ -331,8 +332,8 @@ func init() {
 	Register(&Scenario{
 		ID:    "C17",
 		Level: "exploration",
-		Rule: "each run draws ONE admission point {server connection cap via SessionManager.CreateConnection or via the adapter accept path; control-connection cap via ClientRegistry.Register (evict-oldest) on a bare registry or on the one a SessionManager wires from MaxControlConnections; TunnelRegistry.Register with MaxTunnels; per-mapping MaxConnections via the BaseMappingHandler accept loop; per-client active-code quota via CreateConnectionCode; per-client active-mapping quota via ActivateConnectionCode}, a limit in {1,2,3,10,0=unlimited} (quotas: {1,2,3,10}), a preset occupancy in {limit-1, limit-2, limit} filled sequentially (quotas: plus 0-2 already expired and 0-1 revoked items that must not count), then N in 2..6 concurrent admission tasks (each optionally delayed, optionally releasing and re-admitting) and 0-2 concurrent releases of preset holders; quotas run on 1-2 nodes over one shared memory backend, optionally with items that expire mid-run, and in a quarter of the quota runs with one injected storage error at the k-th operation of one node while the same requests are issued one after the other (so that an exceeded limit is attributable to the error, class store-error-on-read / store-error-on-write); afterwards a sequential probe fills up to the limit and sends one more request (must be refused and leave the component/store state identical; with limit 0 it must be admitted). " +
-			"Oracle: harness-side holder count (success return .. release invocation/earliest lapse) <= limit after every admission, the component's own counter <= limit after every admission and equal to the harness count at quiescence. " +
+		Rule: "each run draws ONE admission point {server connection cap via SessionManager.CreateConnection or via the adapter accept path; control-connection cap via ClientRegistry.Register (evict-oldest) on a bare registry or on the one a SessionManager wires from MaxControlConnections; TunnelRegistry.Register with MaxTunnels; per-mapping MaxConnections via the BaseMappingHandler accept loop; per-client active-code quota via CreateConnectionCode; per-client active-mapping quota via ActivateConnectionCode}, a limit in {1,2,3,10,0=unlimited} (quotas: {1,2,3,10}), a preset occupancy in {limit-1, limit-2, limit} filled sequentially (quotas: plus 0-2 already expired and 0-1 revoked items that must not count), then N in 2..6 concurrent admission tasks (each optionally delayed, optionally releasing and re-admitting) and 0-2 concurrent releases of preset holders; quotas run on 1-2 nodes over one shared memory backend, optionally with items that expire mid-run, and in a quarter of the quota runs with one injected storage error at the k-th operation of one node while the same requests are issued one after the other (so that an exceeded limit is attributable to the error, class store-error-on-read / store-error-on-write); in half of the per-mapping runs every DialTunnel call additionally draws how that connection ends {lives on; dial error; peer 'tunnel closed' notification, fatal tunnel-error notification or TunnelManager.CloseTunnel delivered by a separate task as soon as the tunnel is registered (so it can overtake the handler's own start-up) or after establishment; transport end racing with the notification} and PrepareConnection / CheckMappingQuota fail for about one connection in twelve; afterwards a sequential probe (all connections live normally) fills up to the limit and sends one more request (must be refused and leave the component/store state identical; with limit 0 it must be admitted). " +
+			"Oracle: harness-side holder count (success return .. release invocation/earliest lapse) <= limit after every admission, the component's own counter <= limit after every admission and equal to the harness count at quiescence (for the mapping handler: activeConnCount == open admitted connections whenever nothing is in flight, reported as count-mismatch after the probe had its chance to show the limit itself exceeded). " +
 			"Non-trivial: at least two admission attempts overlapped in time while preset+attempts reached the limit (or limit 0), or an injected storage error fired, or the sequential probe reached the full boundary; distinct = distinct schedule hashes of such runs.",
 		Real: []string{
 			"internal/protocol/session SessionManager.CreateConnection/CloseConnection/AcceptConnection, ClientRegistry, TunnelRegistry",
@@ -343,7 +344,7 @@ func init() {
 		},
 		Stub: []string{
 			"transport: simnet links",
-			"mapping.ClientInterface (DialTunnel hands out a simnet link + real StreamProcessor, can be held; user quota = 0/err) and mapping.MappingAdapter (Accept fed by the harness, PrepareConnection marks the admission)",
+			"mapping.ClientInterface (DialTunnel hands out a simnet link + real StreamProcessor, can be held or fail; CheckMappingQuota can fail; user quota = 0/err; notifier tasks call the handler's real TunnelManager OnTunnelClosed/OnTunnelError/CloseTunnel) and mapping.MappingAdapter (Accept fed by the harness, PrepareConnection marks the admission)",
 			"PackageStreamer stub recording Close for registry entries",
 			"peers of tunnels: harness tasks that close when they read EOF",
 		},
@@ -985,9 +986,10 @@ func (c17timeout) Timeout() bool { return true }
 // c17local is the accepted local connection handed to the real handler.
 type c17local struct {
 	*simnet.Conn
-	s    *c17slot
-	g    *c17gauge
-	prep time.Duration
+	s        *c17slot
+	g        *c17gauge
+	prep     time.Duration
+	failPrep bool // PrepareConnection fails for this connection (after it was admitted)
 }
 
 func (l *c17local) Close() error {
@@ -1003,11 +1005,12 @@ func (l *c17local) Close() error {
 }
 
 type c17mapAdapter struct {
-	w     *simrt.World
-	ctx   context.Context
-	g     *c17gauge
-	mu    sync.Mutex
-	queue []*c17local
+	w        *simrt.World
+	ctx      context.Context
+	g        *c17gauge
+	mu       sync.Mutex
+	queue    []*c17local
+	abnormal func(kind string)
 }
 
 func (a *c17mapAdapter) StartListener(config.MappingConfig) error { return nil }
@@ -1041,18 +1044,42 @@ func (a *c17mapAdapter) PrepareConnection(conn io.ReadWriteCloser) error {
 	if l.prep > 0 {
 		a.w.Sleep(l.prep)
 	}
+	if l.failPrep {
+		if a.abnormal != nil {
+			a.abnormal("prepare-failed")
+		}
+		return errors.New("c17: protocol handshake with the local peer failed")
+	}
 	return nil
 }
 func (a *c17mapAdapter) GetProtocol() string { return "tcp" }
 func (a *c17mapAdapter) Close() error        { return nil }
 
+// fates of an admitted connection's tunnel (drawn per DialTunnel call)
+const (
+	c17FateNormal       = iota // established until the user (or the run) closes it
+	c17FateDialError           // DialTunnel fails
+	c17FatePeerClosed          // the peer reports "tunnel closed" (TunnelManager.OnTunnelClosed) as soon as the tunnel is known
+	c17FateFatalError          // a fatal tunnel error notification (TunnelManager.OnTunnelError)
+	c17FateCloseTunnel         // the client closes the tunnel through TunnelManager.CloseTunnel
+	c17FateTransportEnd        // the tunnel transport ends AND the close notification arrives (two closers)
+	c17FateLateNotify          // the close notification arrives after the tunnel is established
+)
+
 type c17mapClient struct {
-	w        *simrt.World
-	ctx      context.Context
-	quotaErr bool
-	mu       sync.Mutex
-	hold     bool
-	dials    int
+	w         *simrt.World
+	ctx       context.Context
+	quotaErr  bool
+	tm        func() tunnel.TunnelManager
+	mu        sync.Mutex
+	hold      bool
+	dials     int
+	quotas    int
+	fates     []int  // by dial number
+	quotaFail []bool // by CheckMappingQuota call number
+	fatesOff  bool   // probe phase: every tunnel lives normally
+	abnormal  int    // abnormal ends that actually happened in this run
+	notifiers int    // notifier tasks still running
 }
 
 func (c *c17mapClient) setHold(h bool) {
@@ -1065,17 +1092,47 @@ func (c *c17mapClient) held() bool {
 	defer c.mu.Unlock()
 	return c.hold
 }
+func (c *c17mapClient) setFatesOff(v bool) {
+	c.mu.Lock()
+	c.fatesOff = v
+	c.mu.Unlock()
+}
+func (c *c17mapClient) abnormalEnds() int {
+	c.mu.Lock()
+	defer c.mu.Unlock()
+	return c.abnormal
+}
+func (c *c17mapClient) pendingNotifiers() int {
+	c.mu.Lock()
+	defer c.mu.Unlock()
+	return c.notifiers
+}
+func (c *c17mapClient) noteAbnormal(kind string) {
+	c.mu.Lock()
+	c.abnormal++
+	c.mu.Unlock()
+	c.w.Probe("mapping-cap.end." + kind)
+}
+
 func (c *c17mapClient) DialTunnel(tunnelID, mappingID, secretKey string) (net.Conn, stream.PackageStreamer, error) {
 	c.w.Yield("c17.dial")
 	c.mu.Lock()
 	c.dials++
 	k := c.dials
+	fate := c17FateNormal
+	if !c.fatesOff && len(c.fates) > 0 {
+		fate = c.fates[(k-1)%len(c.fates)]
+	}
 	c.mu.Unlock()
 	for c.held() {
 		if c.ctx.Err() != nil || c.w.Free() {
 			return nil, nil, errors.New("c17: dial cancelled")
 		}
 		c.w.Sleep(250 * time.Microsecond)
+	}
+	if fate == c17FateDialError {
+		c.noteAbnormal("dial-error")
+		return nil, nil, errors.New("c17: the server refused the tunnel")
 	}
 	ta, tb := simnet.NewLink(c.w, simnet.LinkConfig{NameA: fmt.Sprintf("tun%d", k), NameB: fmt.Sprintf("tun%d@srv", k)})
 	// the far end of the tunnel: a peer that closes when the listener side has finished
@@ -1088,7 +1145,69 @@ func (c *c17mapClient) DialTunnel(tunnelID, mappingID, secretKey string) (net.Co
 		}
 		tb.Close()
 	})
+	if fate != c17FateNormal && c.tm != nil {
+		c.mu.Lock()
+		c.notifiers++
+		c.mu.Unlock()
+		c.w.Spawn(fmt.Sprintf("tunnel-notifier-%d", k), func() {
+			defer func() {
+				c.mu.Lock()
+				c.notifiers--
+				c.mu.Unlock()
+			}()
+			c.notify(fate, tunnelID, mappingID, tb)
+		})
+	}
 	return ta, stream.NewStreamProcessor(ta, ta, c.ctx), nil
+}
+
+// notify ends a tunnel the way the rest of the client does: through the handler's TunnelManager, as
+// soon as the tunnel is known there (the notification may overtake the handler's own start-up) or later.
+func (c *c17mapClient) notify(fate int, tunnelID, mappingID string, far *simnet.Conn) {
+	w := c.w
+	if fate == c17FateLateNotify {
+		w.Sleep(300 * time.Microsecond)
+	}
+	tm := c.tm()
+	found := false
+	for round := 0; round < 3 && !found; round++ {
+		for i := 0; i < 300; i++ {
+			if c.ctx.Err() != nil || w.Free() {
+				return
+			}
+			if tm.GetTunnel(tunnelID) != nil {
+				found = true
+				break
+			}
+			w.Yield("c17.notify.wait")
+		}
+		if !found {
+			w.Sleep(100 * time.Microsecond)
+		}
+	}
+	if !found {
+		w.Probe("mapping-cap.notification-without-tunnel")
+		return
+	}
+	for lag := w.Draw(8, "notify.lag"); lag > 0; lag-- {
+		w.Yield("c17.notify.lag")
+	}
+	switch fate {
+	case c17FatePeerClosed, c17FateLateNotify:
+		c.noteAbnormal("peer-closed-notification")
+		tm.OnTunnelClosed(tunnelID, mappingID, "target unreachable", 0, 0, 0)
+	case c17FateFatalError:
+		c.noteAbnormal("fatal-error-notification")
+		tm.OnTunnelError(tunnelID, mappingID, "TARGET_UNREACHABLE", "dial to the target failed", false)
+	case c17FateCloseTunnel:
+		c.noteAbnormal("close-tunnel")
+		_ = tm.CloseTunnel(tunnelID, tunnel.CloseReasonPeerClosed)
+	case c17FateTransportEnd:
+		c.noteAbnormal("transport-end-and-notification")
+		far.Close()
+		w.Yield("c17.notify.after-transport-end")
+		tm.OnTunnelClosed(tunnelID, mappingID, "peer closed", 0, 0, 0)
+	}
 }
 func (c *c17mapClient) DialTunnelPooled(string, string) (mapping.PooledTunnelConnInterface, error) {
 	return nil, nil
@@ -1097,8 +1216,18 @@ func (c *c17mapClient) ReturnTunnelToPool(mapping.PooledTunnelConnInterface)  {}
 func (c *c17mapClient) CloseTunnelFromPool(mapping.PooledTunnelConnInterface) {}
 func (c *c17mapClient) IsTunnelPoolEnabled() bool                             { return false }
 func (c *c17mapClient) GetContext() context.Context                           { return c.ctx }
-func (c *c17mapClient) CheckMappingQuota(string) error                        { return nil }
-func (c *c17mapClient) TrackTraffic(string, int64, int64) error               { return nil }
+func (c *c17mapClient) CheckMappingQuota(string) error {
+	c.mu.Lock()
+	c.quotas++
+	fail := !c.fatesOff && len(c.quotaFail) > 0 && c.quotaFail[(c.quotas-1)%len(c.quotaFail)]
+	c.mu.Unlock()
+	if fail {
+		c.noteAbnormal("traffic-quota-refusal")
+		return errors.New("c17: monthly traffic quota exhausted")
+	}
+	return nil
+}
+func (c *c17mapClient) TrackTraffic(string, int64, int64) error { return nil }
 func (c *c17mapClient) GetUserQuota() (*models.UserQuota, error) {
 	if c.quotaErr {
 		return nil, errors.New("c17: quota service unavailable")
@@ -1117,14 +1246,31 @@ type c17mconn struct {
 
 func c17MappingCap(r *c17run) {
 	w, g := r.w, r.g
+	c := w.C
 	ctx, cancel := context.WithCancel(w.Ctx)
 	defer cancel()
 	cl := &c17mapClient{w: w, ctx: ctx, quotaErr: r.quotaErr && r.limit == 0}
-	ad := &c17mapAdapter{w: w, ctx: ctx, g: g}
+	// how the admitted connections end (all draws before any task exists): half of the runs are plain
+	// (every tunnel lives until the user closes it), in the others each DialTunnel call draws a fate
+	var prepFail []bool
+	if c.Intn(2, "fates") == 1 {
+		for i := 0; i < 16; i++ {
+			f := c17FateNormal
+			if v := c.Intn(12, "fate"); v >= 6 {
+				f = v - 5 // 1..6
+			}
+			cl.fates = append(cl.fates, f)
+			cl.quotaFail = append(cl.quotaFail, c.Intn(12, "fate.quota") == 11)
+			prepFail = append(prepFail, c.Intn(12, "fate.prepare") == 11)
+		}
+		g.desc += " abnormal-ends=on"
+	}
+	ad := &c17mapAdapter{w: w, ctx: ctx, g: g, abnormal: cl.noteAbnormal}
 	h := mapping.NewBaseMappingHandler(cl, config.MappingConfig{
 		MappingID: "pmap_c17", SecretKey: "k", Protocol: "tcp", LocalPort: 18080,
 		TargetHost: "127.0.0.1", TargetPort: 80, MaxConnections: r.limit,
 	}, ad)
+	cl.tm = h.GetTunnelManager
 	if err := h.Start(); err != nil {
 		w.Violationf("C17:harness", "mapping handler did not start: %v", err)
 		return
@@ -1133,6 +1279,11 @@ func c17MappingCap(r *c17run) {
 
 	// class of an exceed: by the schedule that produced it
 	g.classOf = func(s *c17slot) string {
+		if cl.abnormal > 0 {
+			// connections of this run ended by a close/error notification, a failed dial, a failed
+			// handshake or a quota refusal before the limit was exceeded
+			return "after-abnormal-close"
+		}
 		inSetup := 0
 		for _, t := range g.slots {
 			if t.admitted && !t.gone && t.phase == "burst" && cl.hold {
@@ -1148,13 +1299,16 @@ func c17MappingCap(r *c17run) {
 		return "sequential-after-established"
 	}
 	g.extra = func() string {
-		return fmt.Sprintf("handler's activeConnCount=%d, tunnels registered in its TunnelManager=%d", h.ActiveConnCountForVerif(), h.GetTunnelManager().CountTunnels())
+		return fmt.Sprintf("handler's activeConnCount=%d, tunnels registered in its TunnelManager=%d, abnormal ends so far=%d", h.ActiveConnCountForVerif(), h.GetTunnelManager().CountTunnels(), cl.abnormalEnds())
 	}
 	seq := 0
 	offer := func(s *c17slot) {
 		seq++
 		ua, ub := simnet.NewLink(w, simnet.LinkConfig{NameA: s.name + ".user", NameB: s.name + ".local"})
 		lc := &c17local{Conn: ub, s: s, g: g, prep: time.Duration(seq) * 7 * time.Microsecond}
+		if len(prepFail) > 0 && g.phase != "probe" {
+			lc.failPrep = prepFail[(seq-1)%len(prepFail)]
+		}
 		s.aux = &c17mconn{user: ua, local: lc}
 		s.id = s.name
 		g.begin(s)
@@ -1175,7 +1329,57 @@ func c17MappingCap(r *c17run) {
 		w.Probe("mapping-cap.release")
 		s.aux.(*c17mconn).user.Close()
 	}
+	// settle waits (bounded) until nothing is in flight: no pending notification, every connection the
+	// harness counts as gone has been closed by the handler, and everything runnable has run. Simulated
+	// time only advances when no task is runnable, so the final sleep is a real quiescence point.
+	settle := func() bool {
+		for i := 0; i < 300; i++ {
+			pending := cl.pendingNotifiers() > 0
+			g.mu.Lock()
+			for _, s := range g.slots {
+				if mc, ok := s.aux.(*c17mconn); ok && s.admitted && s.gone && !mc.local.Conn.Closed() {
+					pending = true
+				}
+			}
+			g.mu.Unlock()
+			if !pending {
+				w.Sleep(200 * time.Microsecond)
+				return true
+			}
+			w.Sleep(100 * time.Microsecond)
+		}
+		w.Probe("mapping-cap.unsettled")
+		return false
+	}
+	// drift compares the handler's own counter with the connections that are really open
+	drift := func(when string) string {
+		if !settle() {
+			return ""
+		}
+		n := h.ActiveConnCountForVerif()
+		g.mu.Lock()
+		lo, hi := g.boundsLocked()
+		g.mu.Unlock()
+		switch {
+		case n < lo:
+			return fmt.Sprintf("lost-holders|%s: the handler's activeConnCount is %d while %d admitted connections are open (tunnels registered: %d, abnormal ends so far: %d): the counter has been given back more often than it was taken, so the handler will admit more than the limit",
+				when, n, lo, h.GetTunnelManager().CountTunnels(), cl.abnormalEnds())
+		case n > hi:
+			return fmt.Sprintf("phantom-holders|%s: the handler's activeConnCount is %d while only %d admitted connections are open (tunnels registered: %d, abnormal ends so far: %d): a slot was never given back",
+				when, n, hi, h.GetTunnelManager().CountTunnels(), cl.abnormalEnds())
+		}
+		return ""
+	}
+	flagDrift := func(d string) {
+		if d == "" || g.isDead() {
+			return
+		}
+		i := strings.Index(d, "|")
+		g.violation("count-mismatch:"+d[:i], "%s", d[i+1:])
+	}
 	sequential := func(s *c17slot, mustAdmit bool) bool {
+		settled := settle()
+		mustAdmit = mustAdmit && settled
 		hi := g.occHi()
 		offer(s)
 		if !await(s) {
@@ -1205,6 +1409,8 @@ func c17MappingCap(r *c17run) {
 			preSlots = append(preSlots, s)
 		}
 	}
+
+	pendingDrift := drift("after the sequential preset")
 
 	// 2. burst: N connections arrive while every admitted one is still dialling its tunnel
 	g.phase = "burst"
@@ -1256,25 +1462,22 @@ func c17MappingCap(r *c17run) {
 		return
 	}
 
-	// released connections: wait (bounded) until the handler has closed its side, so that the probe
-	// does not race with the tear-down of a tunnel
-	for i := 0; i < 200; i++ {
-		pending := false
-		g.mu.Lock()
-		for _, s := range g.slots {
-			if mc, ok := s.aux.(*c17mconn); ok && s.admitted && s.gone && !mc.local.Conn.Closed() {
-				pending = true
+	if d := drift("after the burst"); d != "" && pendingDrift == "" {
+		pendingDrift = d
+	}
+	// a drifted counter is reported after the probe had its chance to show the limit itself exceeded
+	defer func() {
+		if !g.isDead() {
+			if d := drift("at the end of the run"); d != "" {
+				pendingDrift = d
 			}
 		}
-		g.mu.Unlock()
-		if !pending {
-			break
-		}
-		w.Sleep(100 * time.Microsecond)
-	}
+		flagDrift(pendingDrift)
+	}()
 
 	// 3. sequential probe with established connections
 	g.phase = "probe"
+	cl.setFatesOff(true)
 	if r.limit == 0 {
 		sequential(g.newSlot("Q1"), true)
 		return
